@@ -1,5 +1,6 @@
 import Tea.Prelude.Bytes
 import Tea.Prelude.Decimal
+import Tea.Prelude.Ansi
 /-
 The operation alphabet of the terminal: exactly what the renderer can emit,
 and its serialization to bytes (charmbracelet/x/ansi v0.8.0 spellings).
@@ -8,7 +9,7 @@ namespace Tea.VT
 open Tea
 
 inductive TermOp where
-  | text (s : Bytes)          -- content bytes, passed through as they are
+  | text (s : Bytes)          -- content bytes (may contain SGR sequences), passed through as they are
   | cr | lf
   | cuu (n : Nat)             -- ansi.CursorUp(n)
   | cub (n : Nat)             -- ansi.CursorBackward(n)
